@@ -36,7 +36,10 @@ from vf.model import apkw
 from vf.model import cmsw as C
 
 MOD = "vf.checks.c32"
-EXT = {"rsa": "RSA", "ec": "EC", "dsa": "DSA"}
+EXT = {"rsa": "RSA", "ec": "EC", "dsa": "DSA", "ed25519": "EC", "ed448": "RSA"}
+# key types the library can load but the v1 scheme (and androguard) does not sign with: whatever is answered for an unaltered block, a certificate may
+# only be reported if its key verifies - an altered block yields none
+OTHER_KEY_TYPES = ("ed25519", "ed448")
 
 
 # ------------------------------------------------------------------ monitor
@@ -118,6 +121,10 @@ def make_configs(quick):
     for i, (alg, second, man) in enumerate(multi):
         cfgs.append({"alg": alg, "digest": ["sha256", "sha1"][i % 2], "attrs": [1, 0, 2][i % 3], "style": "generic", "manifest": man, "extras": i % 2, "extras_first": False,
                      "second": second, "two_blocks": False, "stem": "META-INF/CERT", "sf_method": 0})
+    for i, alg in enumerate(OTHER_KEY_TYPES):
+        for attrs in (0, 1):
+            cfgs.append({"alg": alg, "digest": ["sha256", "sha1"][i % 2], "attrs": attrs, "style": "generic", "manifest": ["sdk9", "sdk29"][attrs], "extras": i % 2, "extras_first": False,
+                         "second": None, "two_blocks": False, "stem": "META-INF/CERT", "sf_method": 0})
     two = [("rsa", 1), ("ec", 0)] if not quick else [("rsa", 1)]
     for alg, attrs in two:
         cfgs.append({"alg": alg, "digest": "sha256", "attrs": attrs, "style": "generic", "manifest": "sdk9", "extras": 0, "extras_first": False, "second": None, "two_blocks": True,
@@ -367,7 +374,11 @@ def shard(ctx, arg):
         ctx.count("layout_main_signerinfo_%s" % ("only" if len(case.model.signer_infos) == 1 else "first" if case.enc_main_idx == 0 else "second"))
         ctx.count("layout_signer_cert_%s_in_bag" % ("alone" if len(case.parsed["certs"]) == 1 else "first" if case.bag_pos == 0 else "not_first"))
         ctx.count("writer_self_checks")
-        got = run_case(ctx, mon, APK, case, "valid", p7, case.sf, expect_cert=case.expected)
+        if cfg["alg"] in OTHER_KEY_TYPES:
+            ctx.count("configs_with_a_key_type_outside_rsa_ec_dsa")
+            got = run_case(ctx, mon, APK, case, "valid-other-key-type", p7, case.sf)      # no expectation: none or the (verifying) signer certificate
+        else:
+            got = run_case(ctx, mon, APK, case, "valid", p7, case.sf, expect_cert=case.expected)
         nsi = len(case.model.signer_infos)
         ctx.sig("valid", cfg["alg"], cfg["digest"], cfg["attrs"], cfg["style"], cfg["manifest"], len(case.parsed["certs"]), case.bag_pos, nsi, case.enc_main_idx, cfg["two_blocks"])
         if ci < 3:
@@ -397,7 +408,7 @@ def shard(ctx, arg):
         for kind, p72, sf2 in structured(case, keys, certs):
             if p72 == p7 and sf2 == case.sf:
                 # re-encoding gave the identical bytes (e.g. attribute order restored by DER sorting): it is the valid input again
-                run_case(ctx, mon, APK, case, kind + "@identical", p72, sf2, expect_cert=case.expected)
+                run_case(ctx, mon, APK, case, kind + "@identical", p72, sf2, expect_cert=None if cfg["alg"] in OTHER_KEY_TYPES else case.expected)
                 continue
             run_case(ctx, mon, APK, case, kind, p72, sf2)
             ctx.sig("structured", kind, cfg["alg"], cfg["attrs"] > 0, nsi, cfg["manifest"])
@@ -441,12 +452,15 @@ def run(ctx):
                        "vf/model/cmsw.py's DER reader is validated against all shipped v1 signature blocks (every certificate androguard reports there verifies under it)",
                        "keys are drawn from OS randomness once per run; witnesses carry the PKCS#7 and .SF bytes"]
     keys = {"rsa": C.gen_key("rsa"), "ec": C.gen_key("ec"), "dsa": C.gen_key("dsa"), "ec2": C.gen_key("ec"),
-            "imposter-rsa": C.gen_key("rsa"), "imposter-ec": C.gen_key("ec"), "imposter-dsa": C.gen_key("dsa")}
+            "imposter-rsa": C.gen_key("rsa"), "imposter-ec": C.gen_key("ec"), "imposter-dsa": C.gen_key("dsa"),
+            "ed25519": C.gen_key("ed25519"), "ed448": C.gen_key("ed448"), "imposter-ed25519": C.gen_key("ed25519"), "imposter-ed448": C.gen_key("ed448")}
     certs = {"rsa": C.make_cert(keys["rsa"], "signer-rsa", serial=0x1001), "ec": C.make_cert(keys["ec"], "signer-ec", serial=0x1002),
              "dsa": C.make_cert(keys["dsa"], "signer-dsa", serial=0x1003), "ec2": C.make_cert(keys["ec2"], "second-signer", serial=0x2001),
              "extra1": C.make_cert(keys["ec2"], "unrelated-1", serial=0x3001), "extra2": C.make_cert(keys["imposter-dsa"], "unrelated-2", serial=0x3002),
              "notinbag": C.make_cert(keys["imposter-ec"], "not-in-bag", serial=0x4001)}
-    for alg, serial in (("rsa", 0x1001), ("ec", 0x1002), ("dsa", 0x1003)):
+    certs["ed25519"] = C.make_cert(keys["ed25519"], "signer-ed25519", serial=0x1004)
+    certs["ed448"] = C.make_cert(keys["ed448"], "signer-ed448", serial=0x1005)
+    for alg, serial in (("rsa", 0x1001), ("ec", 0x1002), ("dsa", 0x1003), ("ed25519", 0x1004), ("ed448", 0x1005)):
         certs["imposter-" + alg] = C.make_cert(keys["imposter-" + alg], "signer-" + alg, serial=serial)  # same issuer and serial, different key
     cfgs = list(enumerate(make_configs(ctx.quick)))
     kh = {k: C.key_to_der(v).hex() for k, v in keys.items()}
@@ -462,7 +476,7 @@ def run(ctx):
     ctx.require_counter("independent_verifications", 100)
     ctx.require_counter("reported_none", 1000)
     ctx.require_counter("writer_self_checks", len(cfgs))
-    ctx.require_counter("cases_valid", len(cfgs))
+    ctx.require_counter("cases_valid", len([c for _, c in cfgs if c["alg"] not in OTHER_KEY_TYPES]))
     ctx.require_counter("cases_sf-byte-corruption", 1000)
     ctx.require_counter("cases_signature-byte-corruption", 500)
     ctx.require_counter("shipped_blocks", 100)
